@@ -2,10 +2,10 @@
 Driver of the general-Aggregate fragment (`Gen/Agg.lean`): JSON lines.
   {"op":"compileA","backend":b,"colls":[{"name","type","elem"}],"aq":{"cols":[{"name","e":GE}]},"events":[..]}
     -> the model's package as text (`Gen.compileA`), the model's own exec / denote(toQuery) on the events,
-       "wt": every column is inside the proved fragment (`wtGE`)
+       "wtw": every column is inside the proved fragment (`wtGE`); "wt": moreover every aggregate exactly typed
   AE   = {"k":"int","v":n} | {"k":"dbl","v":"0.5"} | {"k":"acc"} | {"k":"it"} | {"k":"meth","n","ty"}
        | {"k":"bin","op","a":AE,"b":AE} | {"k":"neg","a":AE}
-  SEED = {"k":"int","v":n} | {"k":"dbl","v":"0.0"}
+  SEED = {"k":"int","v":n} | {"k":"dbl","v":"0.0"}      (n / the literal may be negative: `-3`, `-0.5`)
   GE   = int / dbl / bool literal | {"k":"agg","c":CHAIN,"seed":SEED,"f":AE} | bin | cmp | neg | not
 Run: lake env lean --run FaxVerif/Gen/AggDriver.lean
 -/
@@ -29,8 +29,13 @@ partial def decAE (j : Json) : Except String AE := do
 
 def decSeed (j : Json) : Except String Seed := do
   let k ← jstr j "k"
-  if k = "int" then pure (.int (← jint j "v").toNat)
-  else if k = "dbl" then let (m, e) ← decDbl j; pure (.dbl m e)
+  if k = "int" then
+    let v ← jint j "v"
+    pure (if v < 0 then .nint (-v).toNat else .int v.toNat)
+  else if k = "dbl" then
+    match parseDec (← jstr j "v") with
+    | some (m, e) => pure (if m < 0 then .ndbl (-m).toNat e else .dbl m.toNat e)
+    | none => throw "bad double"
   else throw s!"seed {k}"
 
 partial def decGE (j : Json) : Except String GE := do
@@ -69,8 +74,11 @@ def handleCompileA (j : Json) : Except String Json := do
   let jl (l : List String) := Json.arr (l.map Json.str).toArray
   let execs := evs.map fun ev => resJsonA ((runEvent P floatNum (classInit P.classVars) ev).map (·.1))
   let dens := evs.map fun ev => resJsonA (denoteRows { N := floatNum, ev := ev, collTypes := cts } (AQ.toQuery aq))
-  let wt := aq.all fun p => wtGE p.2
   let aggs := aq.flatMap fun p => aggsGE p.2
+  -- "wtw": inside the theorems (`wtGE`: exact typing or the widened case, the latter over >= 1 kept element);
+  -- "wt": all aggregates exactly typed (typed equality of rows on EVERY event)
+  let wtw := aq.all fun p => wtGE p.2
+  let wt := wtw && aggs.all fun g => aggExact g.seed.ty g.bodyTy
   pure (Json.mkObj [
     ("body", jl (renderS P.body)),
     ("class_decl", jl (P.classVars.map fun p => s!"{p.1} {p.2};")),
@@ -78,10 +86,11 @@ def handleCompileA (j : Json) : Except String Json := do
     ("tokens", Json.arr (P.tokens.map fun t => Json.mkObj [("token", t.1), ("type", t.2.1), ("bank", t.2.2)]).toArray),
     ("tree", P.tree),
     ("exec", Json.arr execs.toArray), ("denote", Json.arr dens.toArray),
-    ("wt", Json.bool wt),
+    ("wt", Json.bool wt), ("wtw", Json.bool wtw),
     ("aggs", Json.arr (aggs.map fun g => Json.mkObj [
         ("seed", g.seed.ty.cpp), ("body", g.bodyTy.cpp), ("acc", g.accTy.cpp),
-        ("base", Json.bool (wtAggBase g)), ("exact", Json.bool (aggExact g.seed.ty g.bodyTy))]).toArray),
+        ("base", Json.bool (wtAggBase g)), ("exact", Json.bool (aggExact g.seed.ty g.bodyTy)),
+        ("widen", Json.bool (aggWiden g))]).toArray),
     ("wf", Json.bool (WellFormed P)), ("eventlocal", Json.bool (EventLocal P))])
 
 def handleA (line : String) : String :=
